@@ -876,3 +876,82 @@ func EvalTerm(t *Term, model map[string]uint64) (uint64, bool) {
 }
 
 var _ = bits.Len
+
+// evalMemo is EvalTerm with memoisation over the DAG.
+func evalMemo(t *Term, model map[string]uint64, memo map[*Term]evalRes) (uint64, bool) {
+	switch t.Op {
+	case OpConst:
+		return t.C, true
+	case OpVar:
+		v, ok := model[t.Name]
+		return v, ok
+	}
+	if r, ok := memo[t]; ok {
+		return r.v, r.ok
+	}
+	cs := make([]*Term, len(t.Args))
+	for i, a := range t.Args {
+		// short-circuit ite to avoid evaluating both branches
+		if t.Op == OpIte && i > 0 {
+			continue
+		}
+		v, ok := evalMemo(a, model, memo)
+		if !ok {
+			memo[t] = evalRes{0, false}
+			return 0, false
+		}
+		cs[i] = &Term{Op: OpConst, Sort: a.Sort, C: v}
+	}
+	var r *Term
+	switch t.Op {
+	case OpIte:
+		br := t.Args[2]
+		if cs[0].C == 1 {
+			br = t.Args[1]
+		}
+		v, ok := evalMemo(br, model, memo)
+		memo[t] = evalRes{v, ok}
+		return v, ok
+	case OpNot:
+		r = Not(cs[0])
+	case OpAnd:
+		r = And(cs[0], cs[1])
+	case OpOr:
+		r = Or(cs[0], cs[1])
+	case OpEq:
+		r = Eq(cs[0], cs[1])
+	case OpBVAdd, OpBVSub, OpBVMul, OpBVUDiv, OpBVSDiv, OpBVURem, OpBVSRem, OpBVAnd, OpBVOr, OpBVXor, OpBVShl, OpBVLshr, OpBVAshr:
+		r = BVBin(t.Op, cs[0], cs[1])
+	case OpBVUlt, OpBVUle, OpBVSlt, OpBVSle:
+		r = BVCmp(t.Op, cs[0], cs[1])
+	case OpBVNot:
+		r = BVNot(cs[0])
+	case OpBVNeg:
+		r = BVNeg(cs[0])
+	case OpExtract:
+		r = Extract(cs[0], t.P1, t.P2)
+	case OpConcat:
+		r = Concat(cs[0], cs[1])
+	case OpZext:
+		r = Zext(cs[0], t.Sort.W)
+	case OpSext:
+		r = Sext(cs[0], t.Sort.W)
+	case OpFAdd, OpFSub, OpFMul, OpFDiv:
+		r = FBin(t.Op, cs[0], cs[1])
+	case OpFLt, OpFLe, OpFEq:
+		r = FCmp(t.Op, cs[0], cs[1])
+	case OpFNeg:
+		r = FNeg(cs[0])
+	case OpFIsNaN:
+		r = FIsNaN(cs[0])
+	default:
+		memo[t] = evalRes{0, false}
+		return 0, false
+	}
+	if r == nil || !r.IsConst() {
+		memo[t] = evalRes{0, false}
+		return 0, false
+	}
+	memo[t] = evalRes{r.C, true}
+	return r.C, true
+}
